@@ -596,3 +596,61 @@ def _iap_unit(nsec, tier, timeout):
 
 NPART_UNWIND = 18
 UNITS += [_iap_unit(8, "quick", 900), _iap_unit(16, "thorough", 7200)]
+
+
+# ---------------------------------------------------------------------------
+# FluctELoss::calc_eloss (energy loss with fluctuations): the same helper contract the ElossApplier relies on
+# ---------------------------------------------------------------------------
+FLU = "src/celeritas/global/alongstep/detail/FluctELoss.hh"
+FLU_RULES = Q_RULES + [
+    Rule(r"auto particle = track\.make_particle_view\(\);", "ParticleTrackView particle = CTV_make_particle_view(track);", 1, note="typed view handle"),
+    Rule(r"auto phys = track\.make_physics_view\(\);", "PhysicsTrackView phys = CTV_make_physics_view(track);", 1, note="typed view handle"),
+    Rule(r"particle\.energy\(\)", "PTV_energy(&particle)", "*", note="view call"),
+    Rule(r"phys\.scalars\(\)\.lowest_electron_energy", "track->t->lowest_electron_energy", "*", note="scalars().lowest_electron_energy"),
+    Rule(r"phys\.scalars\(\)\.range_action\(\)", "track->t->range_action", "*", note="scalars().range_action()"),
+    Rule(r"auto eloss = calc_mean_energy_loss\(particle, phys, step\);", "real_type eloss = calc_mean_energy_loss(&particle, &phys, step); g_mean = eloss;", 1, note="const& args -> pointers; ghost: the mean loss"),
+    Rule(r"CELER_EXPECT\(eloss > 0\);", "/* NOT PROMOTED: CELER_EXPECT(eloss > 0) -- a zero mean loss needs dE/dx == 0 (table data) */", (0, 1), note="in-body EXPECT on table data not promoted"),
+    Rule(r"auto cutoffs = track\.make_cutoff_view\(\);", "", (0, 1), note="view only forwarded to the helper"),
+    Rule(r"auto material = track\.make_material_view\(\);", "", (0, 1), note="view only forwarded to the helper"),
+    Rule(r"EnergyLossHelper loss_helper\(\s*fluct_params_, cutoffs, material, particle, eloss, step\);", "", (0, 1), flags=16, note="helper object (stores the mean loss; its model choice is any)"),
+    Rule(r"auto rng = track\.make_rng_engine\(\);", "", (0, 1), note="RNG handle"),
+    Rule(r"switch \(loss_helper\.model\(\)\)\s*\{.*?#undef ASU_SAMPLE_ELOSS\s*\}", "eloss = FLU_sample(track);   /* switch over the fluctuation model: none / gamma / gaussian / urban distribution sample */", (0, 1), flags=16,
+         note="model dispatch + distribution sampling -> stub returning ANY non-negative value (distribution shape not decided)"),
+    Rule(r"loss_helper\.mean_loss\(\)", "g_mean", "*", note="EnergyLossHelper::mean_loss(): the mean loss it was constructed with"),
+    Rule(r"track\.make_sim_view\(\)\.post_step_action\(\)", "track->t->post_step_action", "*", note="temporary view: sim.post_step_action()"),
+]
+
+
+def build_fluct_eloss(ctx):
+    pc = ctx.func(FLU, r"CELER_FUNCTION auto FluctELoss::calc_eloss\(CoreTrackView const& track,", FLU_RULES, name="FluctELoss::calc_eloss")
+    return (VHDR + CALC_STUBS.split("/* assumed contracts")[0] + "real_type g_E, g_thresh, g_lin;\n" + CMEL_SIG % "VIEW_OK(particle) && VIEW_OK(physics)" + ";\n" + """
+real_type g_mean;     /* ghost: the mean loss handed to the EnergyLossHelper */
+/* a sample of the energy-loss distribution chosen by the helper: ANY non-negative number (possibly far above the particle's energy) */
+real_type FLU_sample(CoreTrackView const* track) __CPROVER_assigns() __CPROVER_ensures(__CPROVER_return_value >= 0);
+real_type FLU_calc_eloss(CoreTrackView const* track, real_type step, bool apply_cut)
+__CPROVER_requires(VIEW_OK(track) && step > 0)     /* own CELER_EXPECT */
+__CPROVER_requires(track->t->eloss_ppid != INVALID_ID)   /* is_applicable() */
+__CPROVER_requires(track->t->energy > 0 && !__CPROVER_isinfd(track->t->energy) && track->t->lowest_electron_energy >= 0 && track->t->linear_loss_limit > 0 && track->t->linear_loss_limit <= 1)
+__CPROVER_requires(!__CPROVER_isinfd(step) && track->t->dedx_range >= step && !__CPROVER_isinfd(track->t->dedx_range))
+__CPROVER_requires(step == track->t->dedx_range ==> track->t->post_step_action == track->t->range_action)
+__CPROVER_assigns(g_E, g_thresh, g_lin, g_mean)
+/* exactly the contract the ElossApplier relies on (EH_calc_eloss in unit c01_eloss_applier), for ANY value the fluctuation sampler returns */
+__CPROVER_ensures(__CPROVER_return_value >= 0 && __CPROVER_return_value <= track->t->energy)
+__CPROVER_ensures(__CPROVER_return_value == track->t->energy ==> (apply_cut || track->t->post_step_action == track->t->range_action))
+__CPROVER_ensures(apply_cut ==> (__CPROVER_return_value == track->t->energy || track->t->energy - __CPROVER_return_value > track->t->lowest_electron_energy))
+{""" + pc.body + """}
+void h_flu(void)
+{
+    Track t; CoreTrackView v = {&t}; real_type step; unsigned r; bool cut = (r != 0);
+    FLU_calc_eloss(&v, step, cut);
+    VERIF_CANARY();
+}
+""")
+
+
+UNITS += [
+    Unit("c01_fluct_eloss", build_fluct_eloss, "h_flu", enforce="FLU_calc_eloss", replace=["calc_mean_energy_loss", "FLU_sample"], timeout=300, backend=["sat", "cvc5"],
+         must_have=[r"FLU_calc_eloss.postcondition", r"celer_assert", r"celer_ensure", r"calc_mean_energy_loss.precondition"], checks=["--bounds-check", "--pointer-check"],
+         assumptions=["calc_mean_energy_loss by its contract (c01_calc_mean_energy_loss)", "the fluctuation sampler returns any non-negative value (distribution shape not decided)", "NOT PROMOTED: CELER_EXPECT(eloss > 0) on the mean loss (table data)"],
+         note="FluctELoss::calc_eloss: for ANY sampled loss the returned loss is in [0, E]; == E only when cutting or on a range-limited step; with the cut, either everything or a remainder above the tracking threshold; in-body ASSERT/ENSURE hold"),
+]
